@@ -7,6 +7,7 @@
 (*  conv   [a, ua, xa, b, ub, xb]               xa * F(ua) = xb * F(ub)                (C13) *)
 (*  round  [node, base, dir, off, x, r, k]      r = RoundSpec(x) with witness k        (C10) *)
 (*  equal  [node, x, y]                         x = y (rounding off: rounded = raw)    (C10) *)
+(*  missingspec [node, raised]                  a rounding key without specification raises (C10) *)
 EXTENDS Aggregate, Round, TimeUnits, TLC, Json, IOUtils
 T == JsonDeserialize(IOEnv.TRACE_FILE)
 Pool == T.pool
@@ -33,6 +34,7 @@ Verdict(e) ==
          IF ~(Finite(e.x) /\ Finite(e.r)) THEN {"nonfinite"}
          ELSE IF \A i \in 1..Len(e.x) : RoundOK(V(e.x[i]), V(e.r[i]), e.base, e.dir, e.off, e.kk[i]) THEN {} ELSE {"round:" \o e.dir}
     [] e.k = "equal" -> IF \A i \in 1..Len(e.x) : e.x[i] = e.y[i] \/ (IsFinite(V(e.x[i])) /\ V(e.x[i]) = V(e.y[i])) THEN {} ELSE {"equal"}
+    [] e.k = "missingspec" -> IF e.raised THEN {} ELSE {"missingspec-silent"}
     [] OTHER -> {"unknown-event"}
 
 Init == l = 1 /\ bad = {} /\ stats = [n |-> 0]
